@@ -467,7 +467,7 @@ class FrequencyResponseData(LTI):
     def __neg__(self):
         """Negate a transfer function."""
 
-        return FRD(-self.frdata, self.omega)
+        return FRD(-self.frdata, self.omega, dt=self.dt)
 
     def __add__(self, other):
         """Add two LTI objects (parallel connection)."""
@@ -504,7 +504,9 @@ class FrequencyResponseData(LTI):
                 "The first summand has %i output(s), but the " \
                 "second has %i." % (self.noutputs, other.noutputs))
 
-        return FRD(self.frdata + other.frdata, other.omega)
+        dt = common_timebase(self.dt, other.dt)
+
+        return FRD(self.frdata + other.frdata, other.omega, dt=dt)
 
     def __radd__(self, other):
         """Right add two LTI objects (parallel connection)."""
@@ -526,7 +528,7 @@ class FrequencyResponseData(LTI):
 
         # Convert the second argument to a transfer function.
         if isinstance(other, (int, float, complex, np.number)):
-            return FRD(self.frdata * other, self.omega,
+            return FRD(self.frdata * other, self.omega, dt=self.dt,
                        smooth=(self._ifunc is not None))
         else:
             other = _convert_to_frd(other, omega=self.omega)
@@ -544,13 +546,15 @@ class FrequencyResponseData(LTI):
                 "G1 has %i input(s), G2 has %i output(s)." %
                 (self.ninputs, other.noutputs))
 
+        dt = common_timebase(self.dt, other.dt)
+
         inputs = other.ninputs
         outputs = self.noutputs
         frdata = empty((outputs, inputs, len(self.omega)),
                       dtype=self.frdata.dtype)
         for i in range(len(self.omega)):
             frdata[:, :, i] = self.frdata[:, :, i] @ other.frdata[:, :, i]
-        return FRD(frdata, self.omega,
+        return FRD(frdata, self.omega, dt=dt,
                    smooth=(self._ifunc is not None) and
                           (other._ifunc is not None))
 
@@ -559,7 +563,7 @@ class FrequencyResponseData(LTI):
 
         # Convert the second argument to an frd function.
         if isinstance(other, (int, float, complex, np.number)):
-            return FRD(self.frdata * other, self.omega,
+            return FRD(self.frdata * other, self.omega, dt=self.dt,
                        smooth=(self._ifunc is not None))
         else:
             other = _convert_to_frd(other, omega=self.omega)
@@ -577,6 +581,8 @@ class FrequencyResponseData(LTI):
                 "G1 has %i input(s), G2 has %i output(s)." %
                 (other.ninputs, self.noutputs))
 
+        dt = common_timebase(self.dt, other.dt)
+
         inputs = self.ninputs
         outputs = other.noutputs
 
@@ -584,7 +590,7 @@ class FrequencyResponseData(LTI):
                       dtype=self.frdata.dtype)
         for i in range(len(self.omega)):
             frdata[:, :, i] = other.frdata[:, :, i] @ self.frdata[:, :, i]
-        return FRD(frdata, self.omega,
+        return FRD(frdata, self.omega, dt=dt,
                    smooth=(self._ifunc is not None) and
                           (other._ifunc is not None))
 
@@ -593,7 +599,7 @@ class FrequencyResponseData(LTI):
         """Divide two LTI objects."""
 
         if isinstance(other, (int, float, complex, np.number)):
-            return FRD(self.frdata * (1/other), self.omega,
+            return FRD(self.frdata * (1/other), self.omega, dt=self.dt,
                        smooth=(self._ifunc is not None))
         else:
             other = _convert_to_frd(other, omega=self.omega)
@@ -602,7 +608,9 @@ class FrequencyResponseData(LTI):
             # FRD.__truediv__ is currently only implemented for SISO systems
             return NotImplemented
 
-        return FRD(self.frdata/other.frdata, self.omega,
+        dt = common_timebase(self.dt, other.dt)
+
+        return FRD(self.frdata/other.frdata, self.omega, dt=dt,
                    smooth=(self._ifunc is not None) and
                           (other._ifunc is not None))
 
@@ -614,7 +622,7 @@ class FrequencyResponseData(LTI):
             return NotImplemented
 
         if isinstance(other, (int, float, complex, np.number)):
-            return FRD(other / self.frdata, self.omega,
+            return FRD(other / self.frdata, self.omega, dt=self.dt,
                        smooth=(self._ifunc is not None))
         else:
             other = _convert_to_frd(other, omega=self.omega)
@@ -627,12 +635,13 @@ class FrequencyResponseData(LTI):
         if other == 0:
             unity = eye(self.noutputs, self.ninputs)[:, :, np.newaxis] * \
                 ones(len(self.omega))
-            return FRD(unity, self.omega,
+            return FRD(unity, self.omega, dt=self.dt,
                        smooth=(self._ifunc is not None))  # unity
         if other > 0:
             return self * (self**(other-1))
         if other < 0:
-            return (FRD(ones(self.frdata.shape), self.omega) / self) * \
+            return (FRD(ones(self.frdata.shape), self.omega,
+                        dt=self.dt) / self) * \
                 (self**(other+1))
 
     # Define the `eval` function to evaluate an FRD at a given (real)
@@ -857,6 +866,8 @@ class FrequencyResponseData(LTI):
             raise ValueError(
                 "FRD.feedback, inputs/outputs mismatch")
 
+        dt = common_timebase(self.dt, other.dt)
+
         # TODO: handle omega re-mapping
 
         # reorder array axes in order to leverage numpy broadcasting
@@ -866,7 +877,8 @@ class FrequencyResponseData(LTI):
         resfrdata = (myfrdata @ linalg.inv(I_AB))
         frdata = np.moveaxis(resfrdata, 0, 2)
 
-        return FRD(frdata, other.omega, smooth=(self._ifunc is not None))
+        return FRD(frdata, other.omega, dt=dt,
+                   smooth=(self._ifunc is not None))
 
     def append(self, other):
         """Append a second model to the present model.
@@ -888,6 +900,8 @@ class FrequencyResponseData(LTI):
         other = _convert_to_frd(other, omega=self.omega, inputs=other.ninputs,
                                 outputs=other.noutputs)
 
+        dt = common_timebase(self.dt, other.dt)
+
         # TODO: handle omega re-mapping
 
         new_frdata = np.zeros(
@@ -898,7 +912,8 @@ class FrequencyResponseData(LTI):
         new_frdata[self.noutputs:, self.ninputs:, :] = np.reshape(
             other.frdata, (other.noutputs, other.ninputs, -1))
 
-        return FRD(new_frdata, self.omega, smooth=(self._ifunc is not None))
+        return FRD(new_frdata, self.omega, dt=dt,
+                   smooth=(self._ifunc is not None))
 
     # Plotting interface
     def plot(self, plot_type=None, *args, **kwargs):
@@ -1006,11 +1021,11 @@ def _convert_to_frd(sys, omega, inputs=1, outputs=1):
             frdata = sys(np.exp(1j * omega * sys.dt))
         if len(frdata.shape) == 1:
             frdata = frdata[np.newaxis, np.newaxis, :]
-        return FRD(frdata, omega, smooth=True)
+        return FRD(frdata, omega, smooth=True, dt=sys.dt)
 
     elif isinstance(sys, (int, float, complex, np.number)):
         frdata = ones((outputs, inputs, len(omega)), dtype=float)*sys
-        return FRD(frdata, omega, smooth=True)
+        return FRD(frdata, omega, smooth=True, dt=None)
 
     # try converting constant matrices
     try:
@@ -1020,7 +1035,7 @@ def _convert_to_frd(sys, omega, inputs=1, outputs=1):
         for i in range(outputs):
             for j in range(inputs):
                 frdata[i, j, :] = sys[i, j]
-        return FRD(frdata, omega, smooth=True)
+        return FRD(frdata, omega, smooth=True, dt=None)
     except Exception:
         pass
 
